@@ -187,7 +187,10 @@ func corruptions(r *rng.R, root *model.Node, path string) []string {
 				out = append(out, join(g))
 			}
 		} else {
-			for _, k := range []string{segs[i].Text + "x", "zz", strings.ToUpper(segs[i].Text) + "_", segs[i].Text[:len(segs[i].Text)-1]} {
+			t := segs[i].Text
+			for _, k := range []string{t + "x", "zz", strings.ToUpper(t) + "_", t[:len(t)-1],
+				// the key among alternatives, in a pattern, with blanks or quotes around it: keys of their own
+				t + "|zz", "zz|" + t, t + "|" + t, t + ",zz", "zz," + t, t + "/zz", t + "?", "?" + t, t + "*", "*" + t, "*", "[" + t + "]", "\"" + t + "\"", "'" + t + "'", " " + t, t + " ", t + "||", "(" + t + ")", t + "=", "~" + t, "!" + t, t + "&" + t} {
 				g[i].Text = k
 				out = append(out, join(g))
 			}
